@@ -258,6 +258,17 @@ def check_file(data, layout, obs, tag, rng=None, cut_stride=1):
                 # must still take exactly the declared number of bytes
                 if val not in (b'1_0',):
                     r2, positions, e2 = run_reader_positions(mutated)
+                    if len(r2) > idx:
+                        got = r2[idx]
+                        ck = [k for k in common.CONTENT if k in got]
+                        c0 = got[ck[0]] if ck else None
+                        if isinstance(c0, (bytes, str)) and (
+                                not c0 or not ends_in_newline(c0, got)):
+                            obs.violation(
+                                '%s:yielded_section_without_final_newline'
+                                % ('length_%s' % vkind), case,
+                                {'section': got['section'],
+                                 'content': c0[:60]})
                     obs.count('exact_byte_count_checked')
                     ff = framing_fails(mutated, positions)
                     if ff:
